@@ -1,0 +1,28 @@
+//go:build verif
+
+package interp
+
+import (
+	"go/constant"
+	"reflect"
+)
+
+// This file is only compiled with the verif build tag. It exports thin wrappers around the
+// unexported constant helpers of typecheck.go so that an external harness can compare them,
+// function by function, with their formal models (property C03). It adds no behaviour.
+
+// VerifRepresentableConst exposes representableConst.
+func VerifRepresentableConst(c constant.Value, t reflect.Type) bool {
+	return representableConst(c, t)
+}
+
+// VerifConvertConst exposes typecheck.convertConst; panicked reports a host panic.
+func VerifConvertConst(c constant.Value, t reflect.Type) (v reflect.Value, err error, panicked bool) {
+	defer func() {
+		if r := recover(); r != nil {
+			panicked = true
+		}
+	}()
+	v, err = typecheck{}.convertConst(reflect.ValueOf(c), t)
+	return v, err, false
+}
